@@ -118,7 +118,7 @@ theorem add_exact {h : Heap} (I : h.Inv) (t : Nat) :
 /-- the watcher never starts a future early, and starts the earliest one -/
 theorem never_early_h {h : Heap} (I : h.Inv) (now id : Nat) (st : Bool)
     (e : (h.step (.popIfDue now)).2 = .popped id st) :
-    (∃ f, h.get id = some f ∧ f.fireT < now ∧ f.hasF = true ∧ st = true ∧ id ∈ h.arr ∧
+    (∃ f, h.get id = some f ∧ f.fireT ≤ now ∧ f.hasF = true ∧ st = true ∧ id ∈ h.arr ∧
       ∀ p ∈ h.pending, f.fireT ≤ p.2) ∧
     id ∉ (h.step (.popIfDue now)).1.arr := by
   rcases step_cases I (.popIfDue now) with ⟨t, h', o, _⟩ | ⟨id', h', o, _⟩ | ⟨id', o, _⟩ |
@@ -129,7 +129,7 @@ theorem never_early_h {h : Heap} (I : h.Inv) (now id : Nat) (st : Bool)
   · rw [e'] at e ⊢
     simp only [popOut, Out.popped.injEq] at e
     obtain ⟨rfl, est⟩ := e
-    have due : h.key id' < now := by
+    have due : h.key id' ≤ now := by
       rcases o with o | ⟨now', o, due⟩
       · cases o
       · cases o; exact due
